@@ -4,23 +4,490 @@ From FV Require Import Model.Topic.
 Import ListNotations.
 Open Scope Z_scope.
 
-(** ** the two defects of the pinned generators, on the README's own example *)
-Lemma pinned_go_ignores_delim :
-  exists delim sc op pfx vals t1 t2,
-    in_domain Go delim sc op pfx = true /\ in_domain Java delim sc op pfx = true /\
-    topic pinned Go Pub delim sc op pfx vals = Some t1 /\
-    topic pinned Java Sub delim sc op pfx vals = Some t2 /\ t1 <> t2.
+(** ** strings, membership *)
+Lemma seqb_refl : forall a, seqb a a = true.
+Proof. induction a as [|x a IH]; cbn; [reflexivity|]. rewrite Z.eqb_refl. exact IH. Qed.
+
+Lemma seqb_eq : forall a b, seqb a b = true <-> a = b.
 Proof.
-  exists (lit "/"), (lit "Events"), (lit "EventCreated"), (lit "foo.{user}"), [lit "bill"].
-  eexists. eexists. repeat split; try (vm_compute; reflexivity). vm_compute. discriminate.
+  induction a as [|x a IH]; destruct b as [|y b]; cbn; split; intro H; try reflexivity; try discriminate.
+  - apply andb_true_iff in H. destruct H as [H1 H2]. apply Z.eqb_eq in H1. apply IH in H2. subst. reflexivity.
+  - inversion H; subst. rewrite Z.eqb_refl. apply seqb_refl.
 Qed.
 
-Lemma pinned_python_case_differs :
-  exists delim sc op pfx vals t1 t2,
-    in_domain Py delim sc op pfx = true /\ in_domain Java delim sc op pfx = true /\
-    topic pinned Py Pub delim sc op pfx vals = Some t1 /\
-    topic pinned Java Sub delim sc op pfx vals = Some t2 /\ t1 <> t2.
+Lemma seqb_sym : forall a b, seqb a b = seqb b a.
 Proof.
-  exists (lit "."), (lit "events"), (lit "created"), [], [].
-  eexists. eexists. repeat split; try (vm_compute; reflexivity). vm_compute. discriminate.
+  intros a b. destruct (seqb a b) eqn:E.
+  - apply seqb_eq in E. subst. symmetry. apply seqb_refl.
+  - destruct (seqb b a) eqn:E2; [|reflexivity]. apply seqb_eq in E2. subst. rewrite seqb_refl in E. discriminate.
+Qed.
+
+Lemma mem_app : forall x a b, mem x (a ++ b) = mem x a || mem x b.
+Proof. induction a as [|y a IH]; intros b; cbn; [reflexivity|]. rewrite IH. apply orb_assoc. Qed.
+
+Lemma nodupb_app : forall a b, nodupb (a ++ b) = true -> nodupb a = true /\ nodupb b = true.
+Proof.
+  induction a as [|x a IH]; intros b H; cbn in *; [split; [reflexivity|exact H]|].
+  apply andb_true_iff in H. destruct H as [H1 H2]. apply IH in H2. destruct H2 as [Ha Hb].
+  rewrite mem_app in H1. apply negb_true_iff in H1. apply orb_false_iff in H1. destruct H1 as [H1 _].
+  rewrite H1, Ha. split; [reflexivity|exact Hb].
+Qed.
+
+Lemma nodupb_app_notin : forall a b x, nodupb (a ++ b) = true -> mem x a = true -> mem x b = false.
+Proof.
+  induction a as [|y a IH]; intros b x H Hm; cbn in *; [discriminate|].
+  apply andb_true_iff in H. destruct H as [H1 H2].
+  apply orb_true_iff in Hm. destruct Hm as [Hm|Hm].
+  - apply seqb_eq in Hm. subst y. rewrite mem_app in H1. apply negb_true_iff in H1.
+    apply orb_false_iff in H1. tauto.
+  - eapply IH; eassumption.
+Qed.
+
+(** ** environments *)
+Lemma lookup_app_l : forall x e1 e2 v, lookup x e1 = Some v -> lookup x (e1 ++ e2) = Some v.
+Proof.
+  induction e1 as [|[y w] e1 IH]; intros e2 v H; cbn in *; [discriminate|].
+  destruct (seqb x y); [exact H|]. apply IH. exact H.
+Qed.
+
+Lemma lookups_skip : forall xs k v en, mem k xs = false -> lookups xs ((k, v) :: en) = lookups xs en.
+Proof.
+  induction xs as [|x xs IH]; intros k v en H; cbn in *; [reflexivity|].
+  apply orb_false_iff in H. destruct H as [H1 H2]. rewrite seqb_sym in H1. rewrite H1.
+  rewrite (IH _ _ _ H2). reflexivity.
+Qed.
+
+Lemma lookups_combine : forall vars vals rest,
+  nodupb vars = true -> List.length vals = List.length vars ->
+  lookups vars (combine vars vals ++ rest) = Some vals.
+Proof.
+  induction vars as [|x vars IH]; intros vals rest Hnd Hlen; destruct vals as [|v vals]; cbn in *; try discriminate; [reflexivity|].
+  apply andb_true_iff in Hnd. destruct Hnd as [H1 H2]. apply negb_true_iff in H1.
+  rewrite seqb_refl. rewrite (lookups_skip _ _ _ _ H1). rewrite IH; [reflexivity|exact H2|lia].
+Qed.
+
+Lemma lookup_notin_combine : forall x vars vals rest,
+  mem x vars = false -> lookup x (combine vars vals ++ rest) = lookup x rest.
+Proof.
+  induction vars as [|y vars IH]; intros vals rest H; cbn in *; [reflexivity|].
+  destruct vals as [|v vals]; cbn; [reflexivity|].
+  apply orb_false_iff in H. destruct H as [H1 H2]. rewrite H1. apply IH. exact H2.
+Qed.
+
+(** ** the prefix scan *)
+Lemma render_lits : forall s, render (lits s) = s.
+Proof. induction s as [|c s IH]; cbn; [reflexivity|]. unfold lits in IH. rewrite IH. reflexivity. Qed.
+
+Lemma render_app : forall a b, render (a ++ b) = render a ++ render b.
+Proof.
+  induction a as [|[c|n] a IH]; intros b; cbn; [reflexivity| |]; rewrite IH; [reflexivity|].
+  rewrite <- app_assoc. reflexivity.
+Qed.
+
+Lemma render_scan : forall s pend,
+  render (scan s pend) = match pend with None => [] | Some acc => 123 :: rev acc end ++ s.
+Proof.
+  induction s as [|c s IH]; intros pend.
+  - destruct pend as [acc|]; cbn [scan]; [|reflexivity].
+    rewrite render_lits, app_nil_r. reflexivity.
+  - destruct pend as [acc|]; cbn [scan].
+    + destruct (is_word c) eqn:Hw.
+      * rewrite IH. cbn [rev app]. rewrite <- app_assoc. reflexivity.
+      * destruct (c =? 125) eqn:H1.
+        { apply Z.eqb_eq in H1. subst c. cbn [render]. rewrite IH. cbn [app]. reflexivity. }
+        destruct (c =? 123) eqn:H2.
+        { apply Z.eqb_eq in H2. subst c. rewrite render_app, render_lits, IH. cbn [app rev]. rewrite <- ?app_assoc. reflexivity. }
+        rewrite render_app, render_lits. cbn [render]. rewrite IH. cbn [app]. rewrite <- ?app_assoc. reflexivity.
+    + destruct (c =? 123) eqn:H2.
+      * apply Z.eqb_eq in H2. subst c. rewrite IH. reflexivity.
+      * cbn [render]. rewrite IH. reflexivity.
+Qed.
+
+(** ScopePrefix.String is the prefix itself *)
+Lemma render_segments : forall p, render (segments p) = p.
+Proof. intros p. unfold segments. rewrite render_scan. reflexivity. Qed.
+
+Lemma forallb_render_lits : forall (P : Z -> bool) g,
+  forallb P (render g) = true -> forallb P (lits_of g) = true.
+Proof.
+  induction g as [|[c|n] g IH]; cbn; intro H; [reflexivity| |].
+  - apply andb_true_iff in H. destruct H as [H1 H2]. rewrite H1. apply IH. exact H2.
+  - apply andb_true_iff in H. destruct H as [_ H]. rewrite forallb_app in H.
+    apply andb_true_iff in H. destruct H as [_ H]. cbn in H. apply andb_true_iff in H. apply IH. tauto.
+Qed.
+
+Lemma forallb_lits_segments : forall (P : Z -> bool) p,
+  forallb P p = true -> forallb P (lits_of (segments p)) = true.
+Proof. intros P p H. apply forallb_render_lits. rewrite render_segments. exact H. Qed.
+
+(** every variable the scan finds consists of \w characters *)
+Lemma vars_lits : forall s, vars_of (lits s) = [].
+Proof. induction s as [|c s IH]; cbn; [reflexivity|exact IH]. Qed.
+
+Lemma vars_of_app : forall a b, vars_of (a ++ b) = vars_of a ++ vars_of b.
+Proof. induction a as [|[c|n] a IH]; intros b; cbn; [reflexivity|apply IH|rewrite IH; reflexivity]. Qed.
+
+Lemma scan_vars_word : forall s pend,
+  match pend with None => True | Some acc => forallb is_word acc = true end ->
+  Forall (fun n => forallb is_word n = true) (vars_of (scan s pend)).
+Proof.
+  induction s as [|c s IH]; intros pend Hp.
+  - destruct pend as [acc|]; cbn [scan]; [|constructor].
+    change (lits (123 :: rev acc)) with (Lit 123 :: lits (rev acc)). cbn [vars_of]. rewrite vars_lits. constructor.
+  - destruct pend as [acc|]; cbn [scan].
+    + destruct (is_word c) eqn:Hw.
+      * apply IH. cbn. rewrite Hw. exact Hp.
+      * destruct (c =? 125).
+        { cbn [vars_of]. constructor; [|apply IH; exact I].
+          rewrite forallb_forall in *. intros x Hx. apply Hp. apply in_rev. exact Hx. }
+        destruct (c =? 123).
+        { rewrite vars_of_app. change (lits (123 :: rev acc)) with (Lit 123 :: lits (rev acc)).
+          cbn [vars_of]. rewrite vars_lits. cbn. apply IH. reflexivity. }
+        rewrite vars_of_app. change (lits (123 :: rev acc)) with (Lit 123 :: lits (rev acc)).
+        cbn [vars_of]. rewrite vars_lits. cbn. apply IH. exact I.
+    + destruct (c =? 123); [apply IH; reflexivity|]. cbn [vars_of]. apply IH. exact I.
+Qed.
+
+Lemma segments_vars_word : forall p, Forall (fun n => forallb is_word n = true) (vars_of (segments p)).
+Proof. intros p. apply scan_vars_word. exact I. Qed.
+
+(** without variables the template is the prefix and nothing is substituted *)
+Lemma template_novars : forall r g, vars_of g = [] -> template r g = render g.
+Proof. induction g as [|[c|n] g IH]; cbn; intro H; [reflexivity| |discriminate]. rewrite IH; [reflexivity|exact H]. Qed.
+
+Lemma subst_novars : forall g vals, vars_of g = [] -> subst_pos g vals = render g.
+Proof. induction g as [|[c|n] g IH]; cbn; intros vals H; [reflexivity| |discriminate]. rewrite IH; [reflexivity|exact H]. Qed.
+
+(** ** strings.Title keeps identifier characters *)
+Lemma is_word_upper : forall c, is_lower c = true -> is_word (c - 32) = true.
+Proof.
+  intros c H. unfold is_lower in H. apply andb_true_iff in H. destruct H as [H1 H2].
+  apply Z.leb_le in H1. apply Z.leb_le in H2.
+  unfold is_word, is_letter, is_upper.
+  replace (65 <=? c - 32) with true by (symmetry; apply Z.leb_le; lia).
+  replace (c - 32 <=? 90) with true by (symmetry; apply Z.leb_le; lia). reflexivity.
+Qed.
+
+Lemma title_from_word : forall s prev, forallb is_word s = true -> forallb is_word (title_from prev s) = true.
+Proof.
+  induction s as [|c s IH]; intros prev H; cbn in *; [reflexivity|].
+  apply andb_true_iff in H. destruct H as [H1 H2]. rewrite (IH _ H2), andb_true_r.
+  destruct (is_sep prev && is_lower c) eqn:E; [|exact H1].
+  apply andb_true_iff in E. apply is_word_upper. tauto.
+Qed.
+
+Lemma title_word : forall s, forallb is_word s = true -> forallb is_word (title s) = true.
+Proof. intros s. apply title_from_word. Qed.
+
+Lemma forallb_impl : forall (P Q : Z -> bool) s,
+  (forall c, P c = true -> Q c = true) -> forallb P s = true -> forallb Q s = true.
+Proof.
+  intros P Q s HPQ H. rewrite forallb_forall in *. intros x Hx. apply HPQ. apply H. exact Hx.
+Qed.
+
+Lemma is_word_range : forall c, is_word c = true -> (48 <= c <= 57) \/ (65 <= c <= 90) \/ c = 95 \/ (97 <= c <= 122).
+Proof.
+  intros c H. unfold is_word, is_letter, is_upper, is_lower, is_digit in H.
+  repeat (apply orb_true_iff in H; destruct H as [H|H]);
+    try (apply andb_true_iff in H; destruct H as [H1 H2]; apply Z.leb_le in H1; apply Z.leb_le in H2; lia).
+  apply Z.eqb_eq in H. lia.
+Qed.
+
+Lemma word_lit_char_ok : forall q c, (q = 34 \/ q = 39) -> is_word c = true -> lit_char_ok q c = true.
+Proof.
+  intros q c Hq H. apply is_word_range in H. unfold lit_char_ok.
+  repeat (apply andb_true_iff; split); try apply negb_true_iff; try apply Z.eqb_neq; try apply Z.leb_le; lia.
+Qed.
+
+Lemma word_not : forall k c, is_word c = true -> (k = 36 \/ k = 37 \/ k = 123 \/ k = 125) -> negb (c =? k) = true.
+Proof. intros k c H Hk. apply is_word_range in H. apply negb_true_iff. apply Z.eqb_neq. lia. Qed.
+
+(** ** the format functions on a template *)
+Lemma option_map_app_cons : forall (c : Z) (s : str) (x : option str),
+  option_map (cons c) (option_map (app s) x) = option_map (app (c :: s)) x.
+Proof. intros c s [x|]; reflexivity. Qed.
+
+Lemma option_map_app_app : forall (a b : str) (x : option str),
+  option_map (app a) (option_map (app b) x) = option_map (app (a ++ b)) x.
+Proof. intros a b [x|]; cbn; [rewrite app_assoc|]; reflexivity. Qed.
+
+Lemma option_map_app_nil : forall (x : option str), option_map (app []) x = x.
+Proof. intros [x|]; reflexivity. Qed.
+
+Lemma no_char_cons : forall k c s, no_char k (c :: s) = true -> (c =? k) = false /\ no_char k s = true.
+Proof.
+  intros k c s H. unfold no_char in *. cbn in H. apply andb_true_iff in H. destruct H as [H1 H2].
+  apply negb_true_iff in H1. split; assumption.
+Qed.
+
+Lemma no_char_app : forall k a b, no_char k (a ++ b) = no_char k a && no_char k b.
+Proof. intros. unfold no_char. apply forallb_app. Qed.
+
+Section GoJava.
+  (** Go's and Java's format function differ only at the end of the format string *)
+  Variable F : str -> bool -> list str -> option str.
+  Hypothesis F_cons : forall c f vs, (c =? 37) = false -> F (c :: f) false vs = option_map (cons c) (F f false vs).
+  Hypothesis F_hole : forall f v vs, F (37 :: 115 :: f) false (v :: vs) = option_map (app v) (F f false vs).
+
+  Lemma F_lit : forall s rest vs, no_char 37 s = true ->
+    F (s ++ rest) false vs = option_map (app s) (F rest false vs).
+  Proof.
+    induction s as [|c s IH]; intros rest vs H; cbn [app].
+    - rewrite option_map_app_nil. reflexivity.
+    - apply no_char_cons in H. destruct H as [H1 H2]. rewrite F_cons by exact H1.
+      rewrite IH by exact H2. apply option_map_app_cons.
+  Qed.
+
+  Lemma F_template : forall g vals rest more,
+    no_char 37 (lits_of g) = true -> List.length vals = List.length (vars_of g) ->
+    F (template pct_s g ++ rest) false (vals ++ more) = option_map (app (subst_pos g vals)) (F rest false more).
+  Proof.
+    induction g as [|[c|n] g IH]; intros vals rest more Hc Hl; cbn [template subst_pos lits_of vars_of] in *.
+    - destruct vals; [|discriminate]. cbn [app]. rewrite option_map_app_nil. reflexivity.
+    - apply no_char_cons in Hc. destruct Hc as [H1 H2]. cbn [app]. rewrite F_cons by exact H1.
+      rewrite IH by assumption. apply option_map_app_cons.
+    - destruct vals as [|v vals]; [discriminate|]. cbn [List.length] in Hl.
+      unfold pct_s. cbn [app]. rewrite F_hole. rewrite IH by (try assumption; lia).
+      apply option_map_app_app.
+  Qed.
+End GoJava.
+
+Lemma go_fmt_cons : forall c f vs, (c =? 37) = false -> go_fmt (c :: f) false vs = option_map (cons c) (go_fmt f false vs).
+Proof. intros c f vs H. cbn [go_fmt]. rewrite H. reflexivity. Qed.
+Lemma go_fmt_hole : forall f v vs, go_fmt (37 :: 115 :: f) false (v :: vs) = option_map (app v) (go_fmt f false vs).
+Proof. intros. reflexivity. Qed.
+Lemma java_fmt_cons : forall c f vs, (c =? 37) = false -> java_fmt (c :: f) false vs = option_map (cons c) (java_fmt f false vs).
+Proof. intros c f vs H. cbn [java_fmt]. rewrite H. reflexivity. Qed.
+Lemma java_fmt_hole : forall f v vs, java_fmt (37 :: 115 :: f) false (v :: vs) = option_map (app v) (java_fmt f false vs).
+Proof. intros. reflexivity. Qed.
+
+Definition go_fmt_lit := F_lit go_fmt go_fmt_cons.
+Definition go_fmt_template := F_template go_fmt go_fmt_cons go_fmt_hole.
+Definition java_fmt_lit := F_lit java_fmt java_fmt_cons.
+Definition java_fmt_template := F_template java_fmt java_fmt_cons java_fmt_hole.
+
+Lemma py_fmt_cons : forall c f vs, (c =? 123) = false -> (c =? 125) = false ->
+  py_fmt (c :: f) 0 vs = option_map (cons c) (py_fmt f 0 vs).
+Proof. intros c f vs H1 H2. cbn [py_fmt]. cbn. rewrite H1, H2. reflexivity. Qed.
+Lemma py_fmt_hole : forall f v vs, py_fmt (123 :: 125 :: f) 0 (v :: vs) = option_map (app v) (py_fmt f 0 vs).
+Proof. intros. reflexivity. Qed.
+
+Lemma py_fmt_lit : forall s rest vs, no_char 123 s = true -> no_char 125 s = true ->
+  py_fmt (s ++ rest) 0 vs = option_map (app s) (py_fmt rest 0 vs).
+Proof.
+  induction s as [|c s IH]; intros rest vs Ha Hb; cbn [app].
+  - rewrite option_map_app_nil. reflexivity.
+  - apply no_char_cons in Ha. apply no_char_cons in Hb. destruct Ha as [A1 A2]. destruct Hb as [B1 B2].
+    rewrite py_fmt_cons by assumption. rewrite IH by assumption. apply option_map_app_cons.
+Qed.
+
+Lemma py_fmt_template : forall g vals rest more,
+  no_char 123 (lits_of g) = true -> no_char 125 (lits_of g) = true ->
+  List.length vals = List.length (vars_of g) ->
+  py_fmt (template braces g ++ rest) 0 (vals ++ more) = option_map (app (subst_pos g vals)) (py_fmt rest 0 more).
+Proof.
+  induction g as [|[c|n] g IH]; intros vals rest more Ha Hb Hl; cbn [template subst_pos lits_of vars_of] in *.
+  - destruct vals; [|discriminate]. cbn [app]. rewrite option_map_app_nil. reflexivity.
+  - apply no_char_cons in Ha. apply no_char_cons in Hb. destruct Ha as [A1 A2]. destruct Hb as [B1 B2].
+    cbn [app]. rewrite py_fmt_cons by assumption. rewrite IH by assumption. apply option_map_app_cons.
+  - destruct vals as [|v vals]; [discriminate|]. cbn [List.length] in Hl.
+    unfold braces. cbn [app]. rewrite py_fmt_hole. rewrite IH by (try assumption; lia).
+    apply option_map_app_app.
+Qed.
+
+(** ** literals *)
+Lemma unq_ok : forall q r, lit_ok q r = true -> unq q r = Some r.
+Proof. intros q r H. unfold unq. rewrite H. reflexivity. Qed.
+
+Lemma lit_ok_app : forall q a b, lit_ok q (a ++ b) = lit_ok q a && lit_ok q b.
+Proof. intros. unfold lit_ok. apply forallb_app. Qed.
+
+Lemma lit_ok_template : forall q r g, lit_ok q (lits_of g) = true -> lit_ok q r = true -> lit_ok q (template r g) = true.
+Proof.
+  induction g as [|[c|n] g IH]; cbn [template lits_of]; intros Hl Hr; [reflexivity| |].
+  - unfold lit_ok in *. cbn [forallb] in *. apply andb_true_iff in Hl. destruct Hl as [H1 H2].
+    rewrite H1. apply IH; assumption.
+  - rewrite lit_ok_app, Hr. apply IH; assumption.
+Qed.
+
+Lemma word_lit_ok : forall q s, (q = 34 \/ q = 39) -> forallb is_word s = true -> lit_ok q s = true.
+Proof. intros q s Hq H. unfold lit_ok. eapply forallb_impl; [|exact H]. intros c Hc. apply word_lit_char_ok; assumption. Qed.
+
+Lemma word_no_char : forall k s, (k = 36 \/ k = 37 \/ k = 123 \/ k = 125) -> forallb is_word s = true -> no_char k s = true.
+Proof. intros k s Hk H. unfold no_char. eapply forallb_impl; [|exact H]. intros c Hc. apply word_not; assumption. Qed.
+
+Lemma name_ok_word : forall s, name_ok s = true -> forallb is_word s = true.
+Proof. intros s H. unfold name_ok in H. apply andb_true_iff in H. tauto. Qed.
+
+Lemma segments_nil_vars : forall pfx, pfx = [] -> vars_of (segments pfx) = [].
+Proof. intros pfx ->. reflexivity. Qed.
+
+(** the value of the prefix: what the specification prescribes *)
+Definition prefix_value (delim pfx : str) (vals : list str) : str :=
+  match pfx with [] => [] | _ => subst_pos (segments pfx) vals ++ delim end.
+
+Lemma spec_topic_eq : forall delim sc op pfx vals,
+  spec_topic delim sc op pfx vals = prefix_value delim pfx vals ++ title sc ++ delim ++ op.
+Proof. reflexivity. Qed.
+
+Section GoJavaPrefix.
+  Variable F : str -> bool -> list str -> option str.
+  Hypothesis F_cons : forall c f vs, (c =? 37) = false -> F (c :: f) false vs = option_map (cons c) (F f false vs).
+  Hypothesis F_hole : forall f v vs, F (37 :: 115 :: f) false (v :: vs) = option_map (app v) (F f false vs).
+  Hypothesis F_nil : F [] false [] = Some [].
+
+  Lemma F_plain : forall s, no_char 37 s = true -> F s false [] = Some s.
+  Proof.
+    intros s H. rewrite <- (app_nil_r s) at 1. rewrite (F_lit F F_cons) by exact H. rewrite F_nil. cbn.
+    rewrite app_nil_r. reflexivity.
+  Qed.
+
+  Lemma F_prefix : forall delim pfx vals,
+    no_char 37 pfx = true -> no_char 37 delim = true ->
+    List.length vals = List.length (vars_of (segments pfx)) ->
+    F (template pct_s (segments pfx) ++ delim) false vals = Some (subst_pos (segments pfx) vals ++ delim).
+  Proof.
+    intros delim pfx vals Hp Hd Hl. rewrite <- (app_nil_r vals) at 1.
+    rewrite (F_template F F_cons F_hole); [|apply forallb_lits_segments; exact Hp|exact Hl].
+    rewrite F_plain by exact Hd. reflexivity.
+  Qed.
+End GoJavaPrefix.
+
+Lemma go_fmt_nil : go_fmt [] false [] = Some []. Proof. reflexivity. Qed.
+Lemma java_fmt_nil : java_fmt [] false [] = Some []. Proof. reflexivity. Qed.
+
+(** evaluation of the prefix statement in Go and Java *)
+Lemma eval_prefix_gj : forall l delim pfx vals en,
+  (l = Go \/ l = Java) ->
+  lit_ok 34 pfx = true -> lit_ok 34 delim = true ->
+  (null (vars_of (segments pfx)) || (no_char 37 pfx && no_char 37 delim)) = true ->
+  List.length vals = List.length (vars_of (segments pfx)) ->
+  lookups (vars_of (segments pfx)) en = Some vals ->
+  eval l (prefix_expr pct_s delim pfx (segments pfx)) en = Some (prefix_value delim pfx vals).
+Proof.
+  intros l delim pfx vals en Hl Hp Hd Hpc Hlen Hlk. unfold prefix_expr, prefix_value.
+  destruct (vars_of (segments pfx)) as [|v vs] eqn:V.
+  - destruct pfx as [|c p].
+    + destruct Hl as [-> | ->]; reflexivity.
+    + assert (E : unq 34 ((c :: p) ++ delim) = Some ((c :: p) ++ delim)).
+      { apply unq_ok. rewrite lit_ok_app, Hp, Hd. reflexivity. }
+      rewrite (subst_novars _ _ V), render_segments.
+      destruct Hl as [-> | ->]; cbn [eval]; exact E.
+  - cbn [null orb] in Hpc. apply andb_true_iff in Hpc. destruct Hpc as [Hp37 Hd37].
+    assert (U : unq 34 (template pct_s (segments pfx) ++ delim) = Some (template pct_s (segments pfx) ++ delim)).
+    { apply unq_ok. rewrite lit_ok_app, Hd, andb_true_r. apply lit_ok_template; [|reflexivity].
+      apply forallb_lits_segments. exact Hp. }
+    assert (NE : pfx <> []). { intro E. rewrite (segments_nil_vars _ E) in V. discriminate. }
+    destruct pfx as [|c p]; [contradiction|].
+    rewrite <- V in *.
+    destruct Hl as [-> | ->]; cbn [eval]; rewrite U, Hlk.
+    + apply (F_prefix go_fmt go_fmt_cons go_fmt_hole go_fmt_nil); assumption.
+    + apply (F_prefix java_fmt java_fmt_cons java_fmt_hole java_fmt_nil); assumption.
+Qed.
+
+(** the topic format call *)
+Lemma go_topic_fmt : forall P t delim op,
+  no_char 37 t = true -> no_char 37 delim = true ->
+  go_fmt (pct_s ++ t ++ delim ++ pct_s) false [P; op] = Some (P ++ t ++ delim ++ op).
+Proof.
+  intros P t delim op Ht Hd. unfold pct_s at 1. cbn [app]. rewrite go_fmt_hole.
+  rewrite go_fmt_lit by exact Ht. rewrite go_fmt_lit by exact Hd.
+  unfold pct_s. rewrite go_fmt_hole. cbn. rewrite app_nil_r. reflexivity.
+Qed.
+
+Lemma java_topic_fmt : forall P t delim op,
+  no_char 37 t = true ->
+  java_fmt (pct_s ++ t ++ pct_s ++ pct_s) false [P; delim; op] = Some (P ++ t ++ delim ++ op).
+Proof.
+  intros P t delim op Ht. unfold pct_s at 1. cbn [app]. rewrite java_fmt_hole.
+  rewrite java_fmt_lit by exact Ht. unfold pct_s. cbn [app]. rewrite !java_fmt_hole. cbn.
+  rewrite app_nil_r. reflexivity.
+Qed.
+
+(** ** assembling the generated method body *)
+Lemma run_body_cons : forall l x e b decl en,
+  run_body l ((x, e) :: b) decl en =
+  match eval l e en with
+  | None => None
+  | Some v => if mem x decl && negb (redecl_ok l) then None else run_body l b (x :: decl) ((x, v) :: en)
+  end.
+Proof. reflexivity. Qed.
+
+Lemma parse_prefix_segments : forall pfx g, parse_prefix pfx = Some g -> g = segments pfx.
+Proof. intros pfx g H. unfold parse_prefix in H. destruct (forallb ident_ok (vars_of (segments pfx))); congruence. Qed.
+
+Ltac split_and H :=
+  repeat match type of H with
+         | (_ && _) = true => let H1 := fresh H in apply andb_true_iff in H; destruct H as [H H1]; split_and H1
+         end.
+
+Lemma negb_mem_false : forall x l, negb (mem x l) = true -> mem x l = false.
+Proof. intros. apply negb_true_iff. assumption. Qed.
+
+Lemma topic_unfold : forall q l sd delim sc op pfx vals pr,
+  parse_prefix pfx = Some (segments pfx) ->
+  List.length vals = List.length (vars_of (segments pfx)) ->
+  params_ok l sd op (vars_of (segments pfx)) = true ->
+  emit q l sd delim sc op pfx = Some pr ->
+  topic q l sd delim sc op pfx vals = run_prog l sd op pr (vars_of (segments pfx)) vals.
+Proof.
+  intros q l sd delim sc op pfx vals pr Hp Hl Hk He. unfold topic. rewrite Hp. cbv zeta.
+  rewrite Hl, Nat.eqb_refl, Hk, He. reflexivity.
+Qed.
+
+Lemma go_matches_spec : forall sd delim sc op pfx g vals,
+  parse_prefix pfx = Some g -> List.length vals = List.length (vars_of g) ->
+  vars_safe Go sd op (vars_of g) = true -> in_domain Go delim sc op pfx = true ->
+  topic fixed Go sd delim sc op pfx vals = Some (spec_topic delim sc op pfx vals).
+Proof.
+  intros sd delim sc op pfx g vals Hp Hlen Hvs Hdom.
+  pose proof (parse_prefix_segments _ _ Hp) as ->.
+  unfold vars_safe in Hvs. repeat rewrite andb_true_iff in Hvs. destruct Hvs as [[Hpar Hvs0] [Hvs1 Hvs2]].
+  unfold in_domain in Hdom. cbv zeta in Hdom. repeat rewrite andb_true_iff in Hdom.
+  destruct Hdom as [[Nsc Nop] [[[Lp Ld] Nd] Nx]].
+  apply negb_mem_false in Hvs0, Hvs1, Hvs2.
+  pose proof (name_ok_word _ Nsc) as Wsc. pose proof (name_ok_word _ Nop) as Wop.
+  pose proof (title_word _ Wsc) as Wt.
+  set (vars := vars_of (segments pfx)) in *.
+  assert (Hpc : (null vars || (no_char 37 pfx && no_char 37 delim)) = true).
+  { destruct (null vars); [reflexivity|]. cbn [orb] in *. rewrite Nx, Nd. reflexivity. }
+  assert (Hnd : nodupb vars = true). { unfold params_ok in Hpar. apply nodupb_app in Hpar. tauto. }
+  rewrite (topic_unfold fixed Go sd delim sc op pfx vals _ Hp Hlen Hpar eq_refl).
+  unfold run_prog. cbn [p_consts p_body run_consts]. fold vars.
+  set (en0 := combine vars vals ++ []).
+  assert (Hlk : lookups vars en0 = Some vals) by (apply lookups_combine; assumption).
+  assert (Uop : unq 34 op = Some op) by (apply unq_ok, word_lit_ok; [left; reflexivity|exact Wop]).
+  assert (Ut : unq 34 (pct_s ++ title sc ++ delim ++ pct_s) = Some (pct_s ++ title sc ++ delim ++ pct_s)).
+  { apply unq_ok. rewrite !lit_ok_app, Ld. rewrite (word_lit_ok 34 (title sc)) by (auto). reflexivity. }
+  assert (T37 : no_char 37 (title sc) = true) by (apply word_no_char; auto).
+  rewrite spec_topic_eq.
+  destruct sd.
+  - (* publisher: prefix, op, topic *)
+    assert (M1 : mem n_prefix (fixed_params Go Pub op ++ vars) = false) by (rewrite mem_app, Hvs1; reflexivity).
+    assert (M2 : mem n_op (n_prefix :: fixed_params Go Pub op ++ vars) = false).
+    { cbn [mem]. rewrite mem_app, Hvs0. reflexivity. }
+    assert (M3 : mem n_topic (n_op :: n_prefix :: fixed_params Go Pub op ++ vars) = false).
+    { cbn [mem]. rewrite mem_app, Hvs2. reflexivity. }
+    rewrite run_body_cons.
+    rewrite (eval_prefix_gj Go delim pfx vals en0) by (auto). rewrite M1. cbn [andb].
+    rewrite run_body_cons. cbn [eval]. rewrite Uop, M2. cbn [andb].
+    rewrite run_body_cons. cbn [eval]. cbn [go_dot fixed]. rewrite Ut.
+    replace (lookups [n_prefix; n_op] ((n_op, op) :: (n_prefix, prefix_value delim pfx vals) :: en0))
+      with (Some [prefix_value delim pfx vals; op]) by reflexivity.
+    rewrite go_topic_fmt by assumption. rewrite M3. cbn [andb run_body]. reflexivity.
+  - (* subscriber: op, prefix, topic *)
+    assert (M1 : mem n_op (fixed_params Go Sub op ++ vars) = false) by (rewrite mem_app, Hvs0; reflexivity).
+    assert (M2 : mem n_prefix (n_op :: fixed_params Go Sub op ++ vars) = false).
+    { cbn [mem]. rewrite mem_app, Hvs1. reflexivity. }
+    assert (M3 : mem n_topic (n_prefix :: n_op :: fixed_params Go Sub op ++ vars) = false).
+    { cbn [mem]. rewrite mem_app, Hvs2. reflexivity. }
+    rewrite run_body_cons. cbn [eval]. rewrite Uop, M1. cbn [andb].
+    rewrite run_body_cons.
+    rewrite (eval_prefix_gj Go delim pfx vals ((n_op, op) :: en0)); auto;
+      [|rewrite lookups_skip by exact Hvs0; exact Hlk].
+    rewrite M2. cbn [andb].
+    rewrite run_body_cons. cbn [eval]. cbn [go_dot fixed]. rewrite Ut.
+    replace (lookups [n_prefix; n_op] ((n_prefix, prefix_value delim pfx vals) :: (n_op, op) :: en0))
+      with (Some [prefix_value delim pfx vals; op]) by reflexivity.
+    rewrite go_topic_fmt by assumption. rewrite M3. cbn [andb run_body]. reflexivity.
 Qed.
